@@ -181,3 +181,7 @@ def run(prog, chk):
             chk.ok("R8.3", "dot-policy", "a filter closure tests the leading dot under require_dot_in_pattern_to_match_dot_files / pattern-starts-with-dot", function=eb.name)
         else:
             chk.fail("R8.3", eb.name, "dot-policy", "no Iterator::filter closure that applies the dot-file policy from require_dot_in_pattern_to_match_dot_files")
+
+    # ---- R8.5 / R8.6 pattern operators of parameter expansion (shared with C06 R6.3 / R6.4) --------------------
+    from rules import c06
+    c06.removal_rules(prog, chk, R3="R8.5", R4="R8.6")
